@@ -90,7 +90,7 @@ where
     };
     let actual = post_bit::<E, W>(be, p.n0, k, nb, ns, idx);
     assert_eq!(expected, actual, "stream bit differs from canonical layout");
-    crate::cover!(s, k >= 2, "two or more words delivered");
+    crate::cover!(s, k >= 2 || (W::NBITS >= 64 && k >= 1), "two or more words delivered");
     crate::cover!(s, k == 0 && n > 0, "fits in buffer");
     core::mem::forget(w);
 }
